@@ -5,7 +5,7 @@ Require Import SD.ListOps SD.Ordered SD.OrderedLev SD.OrderedHir Props.C07.
 Require Import U.UnordArr U.UAProofs1 U.UAProofs2 U.UAProofs3 U.UAProofs4 U.UAProofs5.
 Require Import M.MapFlat M.MFProofs1 M.MFProofs4 M.MFProofs5.
 Require Import R.AssocList R.SortedMap R.MapRec R.DModel3 R.DProofs4 R.DProofs5 R.DProofs6 R.DProofs7.
-Require Import Inst.DeriveInst.
+Require Import R.DSetters Inst.DeriveInst.
 
 (* ---- ordered: hirschberg with Z.eqb ---- *)
 
@@ -116,7 +116,7 @@ Theorem C04_closed : forall fs i xs ys, wt_fs fs xs -> wt_fs fs ys ->
   entries_match _ _ _ fs i xs ys (DModel3.diff_fs _ _ _ odiff udiff mdiff iter_order fs i xs ys).
 Proof. apply (change_detection_exact _ _ _ odiff udiff mdiff iter_order iter_perm HO HU HM). Qed.
 Theorem C15_closed : forall fs ops xs copy, wt_fs fs xs -> wt_fs fs copy -> Eq_fs fs copy xs -> ops_ok fs (length xs) ops ->
-  let '(final, es) := run _ _ _ odiff udiff mdiff iter_order fs ops xs in
+  let '(final, es) := DSetters.run _ _ _ odiff udiff mdiff iter_order fs ops xs in
   Eq_fs fs (fold_left (DModel3.apply_fs _ _ _ oapply uapply mapply iter_order fs 0) es copy) final.
 Proof. apply (setters_replay _ _ _ odiff oapply udiff uapply mdiff mapply iter_order iter_perm HO1 HO2 HU1 HU2 HM1 HM2). Qed.
 End FlatMap.
